@@ -1,4 +1,7 @@
 """C19: text decision tables - the 'never a panic' clause for dmntk_recognizer (DESIGN §3 C19)."""
+import re
+
+import mirutil
 from props import c05
 
 LEVEL = "other"
@@ -18,4 +21,33 @@ def run(F, rep, tier):
         roots += [n for n, b in F.bodies.items() if b["_crate"].startswith("dmntk_recognizer") and b.get("vis") == "pub" and b["kind"] != "closure"]
     c05.run_inventory(F, rep, tier, PID, sorted(set(roots)), FLOORS[tier],
                       ("recognising decision tables drawn as text", "the public functions of dmntk_recognizer (build, recognize, ...)"))
+    # side condition of the canvas audits: Canvas.content is never restructured outside scan()
+    rid = rep.rule("R19.2", "canvas invariant: the character grid is built once in scan() and never restructured afterwards")
+
+    def restructures(b):
+        B = mirutil.Body(F, b)
+        bad = []
+        for bi, c in F.body_calls(b):
+            p = c["f"].get("p") or ""
+            if re.search(r"alloc::vec::Vec::<.*>::(push|insert|remove|truncate|clear|pop|swap_remove|drain|retain|append|extend|resize|split_off|dedup)$", p) and c["args"]:
+                a = c["args"][0]
+                ty = B.local_ty(a[1][0]) if a[0] in ("C", "M") else ""
+                if "[char;" in ty and "Vec<" in ty:
+                    bad.append(p.split("::")[-1])
+        return bad
+
+    n = 0
+    for name, b in F.bodies.items():
+        if not name.startswith("dmntk_recognizer::canvas::Canvas::"):
+            continue
+        n += 1
+        bad = restructures(b)
+        if bad:
+            rep.violation(rid, name, "%s restructures the canvas grid (%s): the bounds argument of every grid access relies on the grid being fixed after scan()" % (name, sorted(set(bad))), b["file"])
+        else:
+            rep.ok(rid, name, "no push/insert/remove on the grid")
+    rep.floor(rid, "Canvas methods", n, 20)
+    scan = F.bodies.get("dmntk_recognizer::canvas::scan")
+    if scan is None or not restructures(scan):
+        rep.missing_anchor(rid, "positive control: scan() must be recognised as building the grid with Vec::push")
     rep.explanation += " Recognition fidelity (same table as drawn, same result as the XML form) is geometry over run-time grids and is not decided."
